@@ -272,3 +272,25 @@ func VerifC34ConvRoundTrip() {
 	nd.Observe(n, ts, bs, ok)
 	nd.Assert("c34.conv.round-trip", nd.And(ok, bs == n))
 }
+
+// BIN of a negative BIGINT is the 64-digit two's complement pattern: digit i
+// (from the left) is bit 63-i of the value, and it agrees with CONV(n, 10, 2).
+// (BIN(-256) came out with 57 digits before the repair of binForNegativeInt64.)
+func VerifC34BinNegative() {
+	v := nd.Int64("c34bin.v")
+	nd.Assume(v < 0)
+	res, err := NewBin(nil, c34IF(0)).Eval(nil, sql.Row{v})
+	nd.Reach("c34.bin.negative")
+	s, ok := c34Text(res)
+	nd.Assert("c34.bin.negative.no-error", err == nil && ok)
+	nd.Assert("c34.bin.negative.64-digits", len(s) == 64)
+	if len(s) != 64 {
+		return
+	}
+	good := true
+	for i := 0; i < 64; i++ {
+		bit := (uint64(v) >> uint(63-i)) & 1
+		good = nd.And(good, s[i] == '0'+byte(bit))
+	}
+	nd.Assert("c34.bin.negative.digits-are-the-bits", good)
+}
